@@ -1,4 +1,4 @@
-import Mimium.Proofs.CstShapeNodes
+import Mimium.Proofs.CstShapeParams
 /-!
 # Every tree the ported parser builds without an error is kept by the printer (on the covered node kinds)
 -/
@@ -38,7 +38,7 @@ theorem vc_all (t : Tag) (s : St) (hW : W E c s) (h : Em E c rec (R E c) (body t
   case recordPattern => exact em_node_app _ _ _ h
   case recordPatternLoop => exact vc_recordPatternLoop s h
   case paramList => exact em_node_app _ _ _ h
-  case paramLoop => trivial
+  case paramLoop => exact vc_paramLoop s h
   case expr => exact vc_expr s h
   case assignmentExpr => exact vc_assignmentExpr s h
   case exprPrec => exact vc_exprPrec s h
@@ -114,7 +114,7 @@ theorem nok_all (t : Tag) (s : St) (hW : W E c s) (hpre : Pre t s) : NOK (E := E
   case tuplePatternLoop => exact nok_triv _ _ (by decide)
   case recordPattern => exact nok_recordPattern s
   case recordPatternLoop => exact nok_triv _ _ (by decide)
-  case paramList => exact nok_triv _ _ (by decide)
+  case paramList => exact nok_paramList s
   case paramLoop => exact nok_triv _ _ (by decide)
   case expr => exact nok_triv _ _ (by decide)
   case assignmentExpr => exact nok_triv _ _ (by decide)
